@@ -183,6 +183,13 @@ def attr_model(ex, ctx, base, attr):
             return [(ctx, M.arg(base, 1))]
         if attr == "func":
             return [(ctx, ("__funcobj__", base))]
+        if attr == "dimension":  # the declared dimension of an object that has one; AttributeError otherwise
+            res = []
+            if ex.feasible(ctx, hasdim(base)):
+                res.append((ctx.fork(hasdim(base)), M.leaf_dim(base)))
+            if ex.feasible(ctx, z3.Not(hasdim(base))):
+                res.append((ctx.fork(z3.Not(hasdim(base))), ExcVal("AttributeError", ("dimension",))))
+            return res
     if isinstance(base, TypeRef) and base.name == "dimsys_SI":
         if attr == "is_dimensionless":
             return [(ctx, Builtin("dimsys_SI.is_dimensionless", lambda ex, c, a, k: [(c, M.d_is_dimensionless(a[0]))]))]
@@ -318,7 +325,7 @@ def mk_exec(facts, extra_contracts=None, loop_specs=None, extra_globals=None):
 
 # ------------------------------------------------------------------------------------------ obligations
 def obligations():
-    facts = FE.class_facts()
+    facts = FE.class_facts(extended=True)
     e = z3.Const("expr", M.ExprS)
     N, Q, S = z3.Consts("nums qtys syms", LST)
     obs, execs = [], []
@@ -599,12 +606,13 @@ def obligations():
 
     def setup_disp(ex, ctx):
         compound = [M.K_MUL, M.K_POW, M.K_ADD, M.K_ABS, M.K_MIN, M.K_MAX, M.K_DERIV, M.K_FUNC, M.K_NUM, M.K_SYM, M.K_OTHER]
-        ctx.assume(M.expr_wf(e), hasdim(e) == z3.Or(M.kind(e) == M.K_QTY, M.kind(e) == M.K_DIMSYM), M.d_wf(M.leaf_dim(e)))
+        # every object that declares a dimension: quantities, symplyphysics symbols, Symbolic wrappers (Average, FiniteDifference, ...)
+        ctx.assume(M.expr_wf_upto(e, M.K_SYMBOLIC), hasdim(e) == z3.Or(M.kind(e) == M.K_QTY, M.kind(e) == M.K_DIMSYM, M.kind(e) == M.K_SYMBOLIC), M.d_wf(M.leaf_dim(e)))
         return [e], {}, None
 
     def post_disp(ex, ctx, out, info):
         k = M.kind(e)
-        leafdim = z3.Or(k == M.K_QTY, k == M.K_DIMSYM)
+        leafdim = z3.Or(k == M.K_QTY, k == M.K_DIMSYM, k == M.K_SYMBOLIC)
         plain = z3.Or(k == M.K_NUM, k == M.K_SYM, k == M.K_OTHER, k == M.K_PREFIX)
         if out[0] == "return":
             x, d = out[1]
@@ -633,7 +641,7 @@ def run(report):
     from ..contracts import refimpl as _refimpl
     try:
         execs, obs, ndispatch = obligations()
-    except (GenError, NotImplementedError, KeyError, AttributeError, TypeError) as e:
+    except Exception as e:  # left the modelled subset: fault + executable-contract search
         _refimpl.generation_fallback(report, "collect_expression", UNIT, f"{type(e).__name__}: {e}", seed(), 4000)
         return
     _run(report, execs, obs, ndispatch)
